@@ -26,7 +26,7 @@ def Cache.sigOf (c : Cache) (id : RId) (idx : Nat) : Option Bytes :=
   | none => none
 
 /-- bookkeeping consistency: the per-signer list `rcvd[idx]` names exactly the round caches that hold a partial of
-`idx`, without repetition, and is never longer than the quota -/
+`idx`, without repetition, and is never longer than the quota; no round cache is empty -/
 structure CacheInv (c : Cache) : Prop where
   roundsNodup : keysNodup c.rounds
   rcvdNodup : keysNodup c.rcvd
@@ -35,63 +35,804 @@ structure CacheInv (c : Cache) : Prop where
   listNodup : ∀ idx, (c.rcvdOf idx).Nodup
   listed : ∀ idx id, id ∈ c.rcvdOf idx ↔ (c.sigOf id idx).isSome
   bound : ∀ idx, (c.rcvdOf idx).length ≤ maxPartials
+  /-- added (needed for `c12_rounds_listed`): every round cache holds at least one partial -/
+  nonEmpty : ∀ id r, aget id c.rounds = some r → r.sigs ≠ []
 
-theorem c12_cache_inv (sigLen : Nat) (ops : List COp) : CacheInv (Cache.run sigLen ops) := by
-  sorry
+/-! ### association lists -/
+
+section assoc
+variable {κ ν : Type} [DecidableEq κ]
+
+private theorem aget_aset (k k' : κ) (v : ν) (l : List (κ × ν)) :
+    aget k' (aset k v l) = if k' = k then some v else aget k' l := by
+  induction l with
+  | nil => simp [aset, aget]
+  | cons h t ih =>
+    obtain ⟨a, b⟩ := h
+    simp only [aset]
+    split <;> simp only [aget] <;> grind
+
+private theorem aget_adel (k k' : κ) (l : List (κ × ν)) :
+    aget k' (adel k l) = if k' = k then none else aget k' l := by
+  induction l with
+  | nil => simp [adel, aget]
+  | cons h t ih =>
+    obtain ⟨a, b⟩ := h
+    simp only [adel]
+    split <;> simp only [aget] <;> grind
+
+private theorem aget_eq_none_iff (k : κ) (l : List (κ × ν)) :
+    aget k l = none ↔ k ∉ l.map (·.1) := by
+  induction l with
+  | nil => simp [aget]
+  | cons h t ih =>
+    obtain ⟨a, b⟩ := h
+    simp only [aget]
+    split <;> simp_all
+
+private theorem aget_isSome_iff (k : κ) (l : List (κ × ν)) :
+    (aget k l).isSome ↔ k ∈ l.map (·.1) := by
+  have := aget_eq_none_iff k l
+  cases h : aget k l <;> simp_all
+
+private theorem mem_keys_aset (k k' : κ) (v : ν) (l : List (κ × ν)) :
+    k' ∈ (aset k v l).map (·.1) ↔ k' = k ∨ k' ∈ l.map (·.1) := by
+  rw [← aget_isSome_iff, aget_aset, ← aget_isSome_iff]
+  split <;> simp_all
+
+private theorem keysNodup_aset (k : κ) (v : ν) (l : List (κ × ν)) (h : keysNodup l) :
+    keysNodup (aset k v l) := by
+  unfold keysNodup at *
+  induction l with
+  | nil => simp [aset]
+  | cons hd t ih =>
+    obtain ⟨a, b⟩ := hd
+    simp only [aset]
+    simp only [List.map_cons, List.nodup_cons] at h
+    split
+    · subst_vars; simpa using h
+    · rename_i hne
+      simp only [List.map_cons, List.nodup_cons]
+      refine ⟨?_, ih h.2⟩
+      rw [mem_keys_aset]
+      intro hc
+      rcases hc with hc | hc
+      · exact hne hc.symm
+      · exact h.1 hc
+
+private theorem keys_adel (k : κ) (l : List (κ × ν)) :
+    (adel k l).map (·.1) = (l.map (·.1)).filter (· ≠ k) := by
+  induction l with
+  | nil => simp [adel]
+  | cons hd t ih =>
+    obtain ⟨a, b⟩ := hd
+    simp only [adel]
+    split
+    · subst_vars; simp [ih]
+    · rename_i hne
+      have : a ≠ k := fun h => hne h.symm
+      simp [ih, this]
+
+private theorem keysNodup_adel (k : κ) (l : List (κ × ν)) (h : keysNodup l) :
+    keysNodup (adel k l) := by
+  unfold keysNodup at *
+  rw [keys_adel]
+  exact h.filter _
+
+private theorem aget_append_single (k k' : κ) (v : ν) (l : List (κ × ν)) :
+    aget k (l ++ [(k', v)]) = (aget k l).or (if k = k' then some v else none) := by
+  induction l with
+  | nil => simp [aget]
+  | cons hd t ih =>
+    obtain ⟨a, b⟩ := hd
+    simp only [List.cons_append, aget]
+    split <;> simp [ih]
+
+private theorem keysNodup_append_single (k : κ) (v : ν) (l : List (κ × ν)) (h : keysNodup l)
+    (hk : aget k l = none) : keysNodup (l ++ [(k, v)]) := by
+  unfold keysNodup at *
+  rw [aget_eq_none_iff] at hk
+  simp only [List.map_append, List.map_cons, List.map_nil]
+  rw [List.nodup_append]
+  refine ⟨h, by simp, ?_⟩
+  intro a ha b hb
+  simp at hb
+  subst hb
+  intro hab; subst hab; exact hk ha
+
+end assoc
+
+private structure Inv0 (c : Cache) : Prop where
+  roundsNodup : keysNodup c.rounds
+  rcvdNodup : keysNodup c.rcvd
+  sigsNodup : ∀ id r, aget id c.rounds = some r → keysNodup r.sigs
+  idOk : ∀ id r, aget id c.rounds = some r → (r.round, r.prev) = id
+  listNodup : ∀ idx, (c.rcvdOf idx).Nodup
+  listed : ∀ idx id, id ∈ c.rcvdOf idx ↔ (c.sigOf id idx).isSome
+
+private def NonEmpty (c : Cache) : Prop := ∀ id r, aget id c.rounds = some r → r.sigs ≠ []
+
+private theorem sigOf_eq (c : Cache) (id : RId) (idx : Nat) :
+    c.sigOf id idx = (aget id c.rounds).bind (fun r => aget idx r.sigs) := by
+  unfold Cache.sigOf; cases aget id c.rounds <;> rfl
+
+private theorem rcvdOf_aset (sl : Nat) (rs : List (RId × RoundCache)) (rc : List (Nat × List RId)) (i j : Nat) (l : List RId) :
+    (Cache.mk sl rs (aset i l rc)).rcvdOf j = if j = i then l else (aget j rc).getD [] := by
+  simp only [Cache.rcvdOf, aget_aset]; split <;> simp
+
+private theorem inv_addSig {c : Cache} (h : Inv0 c) {id : RId} {r : RoundCache} {i : Nat} (sig : Bytes)
+    (hR : aget id c.rounds = some r) (hi : aget i r.sigs = none) :
+    Inv0 { c with rounds := aset id { r with sigs := r.sigs ++ [(i, sig)] } c.rounds,
+                  rcvd := aset i (c.rcvdOf i ++ [id]) c.rcvd } := by
+  have hnot : id ∉ c.rcvdOf i := by
+    rw [h.listed, sigOf_eq, hR]; simp [hi]
+  refine ⟨keysNodup_aset _ _ _ h.roundsNodup, keysNodup_aset _ _ _ h.rcvdNodup, ?_, ?_, ?_, ?_⟩
+  · intro id' r'
+    simp only [aget_aset]
+    split
+    · intro h'; cases h'
+      exact keysNodup_append_single _ _ _ (h.sigsNodup _ _ hR) hi
+    · exact h.sigsNodup _ _
+  · intro id' r'
+    simp only [aget_aset]
+    split
+    · intro h'; cases h'; subst_vars
+      exact h.idOk _ r hR
+    · exact h.idOk _ _
+  · intro j
+    rw [rcvdOf_aset]
+    split
+    · rw [List.nodup_append]
+      refine ⟨h.listNodup i, by simp, ?_⟩
+      intro a ha b hb; simp at hb; subst hb; intro hab; subst hab; exact hnot ha
+    · exact h.listNodup j
+  · intro j id'
+    have hl : id' ∈ (aget j c.rcvd).getD [] ↔ _ := h.listed j id'
+    rw [rcvdOf_aset, sigOf_eq]
+    rw [sigOf_eq] at hl
+    simp only [aget_aset]
+    by_cases hj : j = i <;> by_cases hid : id' = id
+    · subst hj; subst hid; simp [aget_append_single]
+    · subst hj; simp [hid]; exact hl
+    · subst hid; simp [hj, aget_append_single]
+      rw [hR] at hl; simpa using hl
+    · simp [hj, hid]; exact hl
+
+private theorem inv_addFresh {c : Cache} (h : Inv0 c) (rd : Nat) (pv : Bytes)
+    (hR : aget (rd, pv) c.rounds = none) :
+    Inv0 { c with rounds := aset (rd, pv) ⟨rd, pv, []⟩ c.rounds } := by
+  refine ⟨keysNodup_aset _ _ _ h.roundsNodup, h.rcvdNodup, ?_, ?_, h.listNodup, ?_⟩
+  · intro id' r'
+    simp only [aget_aset]
+    split
+    · intro h'; cases h'; simp [keysNodup]
+    · exact h.sigsNodup _ _
+  · intro id' r'
+    simp only [aget_aset]
+    split
+    · intro h'; cases h'; subst_vars; rfl
+    · exact h.idOk _ _
+  · intro j id'
+    have hl : id' ∈ (aget j c.rcvd).getD [] ↔ _ := h.listed j id'
+    show id' ∈ (aget j c.rcvd).getD [] ↔ _
+    rw [sigOf_eq] at hl ⊢
+    simp only [aget_aset]
+    by_cases hid : id' = (rd, pv)
+    · subst hid; rw [hR] at hl; simp [aget] at hl ⊢; exact hl
+    · simp [hid]; exact hl
+
+private theorem inv_evict {c : Cache} (h : Inv0 c) {i : Nat} {e : RId} {rest : List RId} {er : RoundCache}
+    (hL : c.rcvdOf i = e :: rest) (hR : aget e c.rounds = some er) :
+    Inv0 { c with
+      rounds := if (adel i er.sigs).length = 0 then adel e c.rounds
+                else aset e { er with sigs := adel i er.sigs } c.rounds,
+      rcvd := aset i rest c.rcvd } := by
+  have hnd := h.listNodup i
+  rw [hL, List.nodup_cons] at hnd
+  have haget : ∀ id', aget id' (if (adel i er.sigs).length = 0 then adel e c.rounds
+                else aset e { er with sigs := adel i er.sigs } c.rounds) =
+      if id' = e then (if (adel i er.sigs).length = 0 then none else some { er with sigs := adel i er.sigs })
+      else aget id' c.rounds := by
+    intro id'
+    split <;> simp only [aget_adel, aget_aset]
+  refine ⟨?_, keysNodup_aset _ _ _ h.rcvdNodup, ?_, ?_, ?_, ?_⟩
+  · show keysNodup (if _ then _ else _)
+    split
+    · exact keysNodup_adel _ _ h.roundsNodup
+    · exact keysNodup_aset _ _ _ h.roundsNodup
+  · intro id' r'
+    show aget id' (if _ then _ else _) = _ → _
+    rw [haget]
+    split
+    · split
+      · simp
+      · intro h'; cases h'; exact keysNodup_adel _ _ (h.sigsNodup _ _ hR)
+    · exact h.sigsNodup _ _
+  · intro id' r'
+    show aget id' (if _ then _ else _) = _ → _
+    rw [haget]
+    split
+    · split
+      · simp
+      · intro h'; cases h'; subst_vars; exact h.idOk _ er hR
+    · exact h.idOk _ _
+  · intro j
+    rw [rcvdOf_aset]
+    split
+    · exact hnd.2
+    · exact h.listNodup j
+  · intro j id'
+    have hl : id' ∈ (aget j c.rcvd).getD [] ↔ _ := h.listed j id'
+    rw [rcvdOf_aset, sigOf_eq]
+    rw [sigOf_eq] at hl
+    show _ ↔ (Option.bind (aget id' (if _ then _ else _)) _).isSome
+    rw [haget]
+    have hsig : (Option.bind (if (adel i er.sigs).length = 0 then none
+        else some ({ er with sigs := adel i er.sigs } : RoundCache)) fun r => aget j r.sigs) =
+        aget j (adel i er.sigs) := by
+      split
+      · rename_i h0
+        rw [List.length_eq_zero_iff] at h0
+        simp [h0, aget]
+      · rfl
+    by_cases hj : j = i <;> by_cases hid : id' = e
+    · subst hj; subst hid; simp only [if_true, hsig, aget_adel]; simpa using hnd.1
+    · subst hj; simp only [if_true, hid, if_false]
+      rw [← hl]
+      show id' ∈ rest ↔ id' ∈ c.rcvdOf j
+      rw [hL]; simp [hid]
+    · subst hid; simp only [hj, if_true, if_false, hsig, aget_adel]
+      rw [hR] at hl; simpa using hl
+    · simp only [hj, hid, if_false]; exact hl
+
+private theorem dropId_getD (id : RId) (sigs : List (Nat × Bytes)) (rcvd : List (Nat × List RId)) (j : Nat) :
+    (aget j (dropId id sigs rcvd)).getD [] =
+      if j ∈ sigs.map (·.1) then ((aget j rcvd).getD []).filter (· ≠ id) else (aget j rcvd).getD [] := by
+  unfold dropId
+  induction sigs generalizing rcvd with
+  | nil => simp
+  | cons s t ih =>
+    rw [List.foldl_cons, ih]
+    have hstep : (aget j (if (((aget s.1 rcvd).getD []).filter (· ≠ id)).length > 0
+          then aset s.1 (((aget s.1 rcvd).getD []).filter (· ≠ id)) rcvd else adel s.1 rcvd)).getD [] =
+        if j = s.1 then ((aget j rcvd).getD []).filter (· ≠ id) else (aget j rcvd).getD [] := by
+      split
+      · rw [aget_aset]; split
+        · subst_vars; simp
+        · rfl
+      · rename_i h0
+        rw [aget_adel]; split
+        · subst_vars
+          have : (((aget s.1 rcvd).getD []).filter (· ≠ id)) = [] := by
+            cases hh : (((aget s.1 rcvd).getD []).filter (· ≠ id)) with
+            | nil => rfl
+            | cons a b => rw [hh] at h0; simp at h0
+          rw [this]; rfl
+        · rfl
+    rw [hstep]
+    by_cases hj : j = s.1
+    · subst hj; simp [List.filter_filter]
+    · have hiff : (j ∈ List.map (·.1) (s :: t)) = (j ∈ List.map (·.1) t) := by simp [hj]
+      simp only [hj, if_false, hiff]
+
+private theorem dropId_keysNodup (id : RId) (sigs : List (Nat × Bytes)) (rcvd : List (Nat × List RId))
+    (h : keysNodup rcvd) : keysNodup (dropId id sigs rcvd) := by
+  unfold dropId
+  induction sigs generalizing rcvd with
+  | nil => simpa
+  | cons s t ih =>
+    rw [List.foldl_cons]
+    apply ih
+    show keysNodup (if _ then _ else _)
+    split
+    · exact keysNodup_aset _ _ _ h
+    · exact keysNodup_adel _ _ h
+
+private theorem inv_dropRound {c : Cache} (h : Inv0 c) {id : RId} {r : RoundCache}
+    (hR : aget id c.rounds = some r) :
+    Inv0 { c with rounds := adel id c.rounds, rcvd := dropId id r.sigs c.rcvd } := by
+  refine ⟨keysNodup_adel _ _ h.roundsNodup, dropId_keysNodup _ _ _ h.rcvdNodup, ?_, ?_, ?_, ?_⟩
+  · intro id' r'
+    simp only [aget_adel]
+    split
+    · simp
+    · exact h.sigsNodup _ _
+  · intro id' r'
+    simp only [aget_adel]
+    split
+    · simp
+    · exact h.idOk _ _
+  · intro j
+    show ((aget j (dropId id r.sigs c.rcvd)).getD []).Nodup
+    rw [dropId_getD]
+    split
+    · exact (h.listNodup j).filter _
+    · exact h.listNodup j
+  · intro j id'
+    have hl : id' ∈ (aget j c.rcvd).getD [] ↔ _ := h.listed j id'
+    show id' ∈ (aget j (dropId id r.sigs c.rcvd)).getD [] ↔ _
+    rw [dropId_getD, sigOf_eq]
+    rw [sigOf_eq] at hl
+    simp only [aget_adel]
+    by_cases hid : id' = id
+    · subst hid
+      rw [hR] at hl
+      simp only [if_true, Option.bind_none, Option.isSome_none]
+      split
+      · simp
+      · rename_i hj
+        rw [← aget_isSome_iff] at hj
+        simp at hl
+        simp [hl]; simpa using hj
+    · simp only [hid, if_false]
+      rw [← hl]
+      split
+      · simp [hid]
+      · rfl
+
+private theorem nonEmpty_dropRound {c : Cache} (h : NonEmpty c) (id : RId) (rc : List (Nat × List RId)) :
+    NonEmpty { c with rounds := adel id c.rounds, rcvd := rc } := by
+  intro id' r'
+  simp only [aget_adel]
+  split
+  · simp
+  · exact h _ _
+
+/-- one step of the `FlushRounds` loop -/
+private def flushStep (round : Nat) (acc : Cache) (e : RId × RoundCache) : Cache :=
+  if e.2.round > round then acc
+  else { acc with rounds := adel e.1 acc.rounds, rcvd := dropId e.1 e.2.sigs acc.rcvd }
+
+private theorem flush_eq (c : Cache) (round : Nat) : c.flush round = c.rounds.foldl (flushStep round) c := rfl
+
+private theorem flush_fold_aget (round : Nat) (l : List (RId × RoundCache)) (hl : keysNodup l) (acc : Cache) (id : RId) :
+    aget id (l.foldl (flushStep round) acc).rounds =
+      match aget id l with
+      | some r => if r.round > round then aget id acc.rounds else none
+      | none => aget id acc.rounds := by
+  induction l generalizing acc with
+  | nil => simp [aget]
+  | cons e t ih =>
+    obtain ⟨k, v⟩ := e
+    have hl' : k ∉ t.map (·.1) ∧ keysNodup t := by
+      simpa [keysNodup] using hl
+    rw [List.foldl_cons, ih hl'.2]
+    by_cases hk : id = k
+    · subst hk
+      have : aget id t = none := (aget_eq_none_iff _ _).2 hl'.1
+      simp only [this, aget, if_true, flushStep]
+      split
+      · rfl
+      · simp [aget_adel]
+    · simp only [aget, hk, if_false]
+      have : aget id (flushStep round acc (k, v)).rounds = aget id acc.rounds := by
+        unfold flushStep; split
+        · rfl
+        · simp [aget_adel, hk]
+      rw [this]
+
+private theorem flush_fold_inv (round : Nat) (l : List (RId × RoundCache)) (hl : keysNodup l) (acc : Cache)
+    (h : Inv0 acc) (hne : NonEmpty acc) (hsub : ∀ e ∈ l, aget e.1 acc.rounds = some e.2) :
+    Inv0 (l.foldl (flushStep round) acc) ∧ NonEmpty (l.foldl (flushStep round) acc) ∧
+      ∀ j, ((l.foldl (flushStep round) acc).rcvdOf j).length ≤ (acc.rcvdOf j).length := by
+  induction l generalizing acc with
+  | nil => exact ⟨h, hne, fun _ => Nat.le_refl _⟩
+  | cons e t ih =>
+    obtain ⟨k, v⟩ := e
+    have hl' : k ∉ t.map (·.1) ∧ keysNodup t := by
+      simpa [keysNodup] using hl
+    rw [List.foldl_cons]
+    have hkv : aget k acc.rounds = some v := hsub (k, v) (by simp)
+    unfold flushStep
+    split
+    · exact ih hl'.2 acc h hne (fun e he => hsub e (by simp [he]))
+    · have hsub' : ∀ e ∈ t, aget e.1 (adel k acc.rounds) = some e.2 := by
+        intro e he
+        have hne' : e.1 ≠ k := by
+          intro hc; apply hl'.1; rw [← hc]; exact List.mem_map_of_mem he
+        simp only [aget_adel, hne', if_false]
+        exact hsub e (by simp [he])
+      obtain ⟨h1, h2, h3⟩ := ih hl'.2 _ (inv_dropRound h hkv) (nonEmpty_dropRound hne _ _) hsub'
+      refine ⟨h1, h2, fun j => Nat.le_trans (h3 j) ?_⟩
+      show ((aget j (dropId k v.sigs acc.rcvd)).getD []).length ≤ _
+      rw [dropId_getD]
+      split
+      · exact List.length_filter_le _ _
+      · exact Nat.le_refl _
+
+private theorem aget_of_mem {κ ν : Type} [DecidableEq κ] (l : List (κ × ν)) (hl : keysNodup l) (e : κ × ν) (he : e ∈ l) :
+    aget e.1 l = some e.2 := by
+  induction l with
+  | nil => simp at he
+  | cons hd t ih =>
+    obtain ⟨a, b⟩ := hd
+    have hl' : a ∉ t.map (·.1) ∧ keysNodup t := by
+      simpa [keysNodup] using hl
+    simp only [aget]
+    rcases List.mem_cons.1 he with rfl | he'
+    · simp
+    · have : e.1 ≠ a := by
+        intro hc; apply hl'.1; rw [← hc]; exact List.mem_map_of_mem he'
+      simp [this, ih hl'.2 he']
+
+private theorem inv_flush {c : Cache} (round : Nat) (h : Inv0 c) (hne : NonEmpty c) :
+    Inv0 (c.flush round) ∧ NonEmpty (c.flush round) ∧
+      ∀ j, ((c.flush round).rcvdOf j).length ≤ (c.rcvdOf j).length := by
+  rw [flush_eq]
+  exact flush_fold_inv round c.rounds h.roundsNodup c h hne (fun e he => aget_of_mem _ h.roundsNodup e he)
+
+private def openRound (c1 : Cache) (id : RId) (p : Partial) : Cache × Except AppendRes RoundCache :=
+  match aget id c1.rounds with
+  | some r => (c1, .ok r)
+  | none => ({ c1 with rounds := aset id ⟨p.round, p.prev, []⟩ c1.rounds }, .ok ⟨p.round, p.prev, []⟩)
+
+private def evictHead (c : Cache) (i : Nat) (e : RId) (rest : List RId) (er : RoundCache) : Cache :=
+  { c with
+      rounds := if (adel i er.sigs).length = 0 then adel e c.rounds
+                else aset e { er with sigs := adel i er.sigs } c.rounds,
+      rcvd := aset i rest c.rcvd }
+
+private theorem getCache_seen {c : Cache} {id : RId} {p : Partial} {i : Nat} {r : RoundCache} {s : Bytes}
+    (hi : indexOf c.sigLen p.psig = some i) (hR : aget id c.rounds = some r) (hs : aget i r.sigs = some s) :
+    c.getCache id p = (c, .ok r) := by
+  simp [Cache.getCache, hi, hR, hs]
+
+private theorem getCache_unseen_noevict {c : Cache} {id : RId} {p : Partial} {i : Nat}
+    (hi : indexOf c.sigLen p.psig = some i) (hs : c.sigOf id i = none)
+    (hlen : ¬ (c.rcvdOf i).length ≥ maxPartials) :
+    c.getCache id p = openRound c id p := by
+  unfold Cache.sigOf at hs
+  unfold Cache.getCache openRound
+  cases hR : aget id c.rounds with
+  | none => simp [hi, hlen, hR]
+  | some r => rw [hR] at hs; simp at hs; simp [hi, hs, hlen, hR]
+
+private theorem getCache_unseen_evict {c : Cache} {id : RId} {p : Partial} {i : Nat} {e : RId} {rest : List RId}
+    {er : RoundCache}
+    (hi : indexOf c.sigLen p.psig = some i) (hs : c.sigOf id i = none)
+    (hlen : (c.rcvdOf i).length ≥ maxPartials) (hL : c.rcvdOf i = e :: rest) (hE : aget e c.rounds = some er) :
+    c.getCache id p = openRound (evictHead c i e rest er) id p := by
+  unfold Cache.sigOf at hs
+  have hlen' : maxPartials ≤ rest.length + 1 := by rw [hL] at hlen; simpa using hlen
+  unfold Cache.getCache openRound evictHead
+  cases hR : aget id c.rounds with
+  | none => simp [hi, hlen', hL, hE]; rfl
+  | some r => rw [hR] at hs; simp at hs; simp [hi, hs, hlen', hL, hE]; rfl
+
+private theorem maxPartials_pos : 0 < maxPartials := by decide
+
+/-- what the quota step (nothing, or eviction of the oldest entry of signer `i`) guarantees -/
+private structure StepSpec (c : Cache) (i : Nat) (c1 : Cache) : Prop where
+  inv : Inv0 c1
+  sigLen : c1.sigLen = c.sigLen
+  others : ∀ j, j ≠ i → c1.rcvdOf j = c.rcvdOf j
+  sub : ∀ x, x ∈ c1.rcvdOf i → x ∈ c.rcvdOf i
+  len : (c.rcvdOf i).length ≤ maxPartials → (c1.rcvdOf i).length < maxPartials
+  ne : NonEmpty c → NonEmpty c1
+  iso : ∀ id' j s, j ≠ i → c.sigOf id' j = some s → c1.sigOf id' j = some s
+
+/-- what `getCache` guarantees for a signer `i` not yet in round cache `id` -/
+private structure GetSpec (c : Cache) (id : RId) (i : Nat) (c' : Cache) (r : RoundCache) : Prop where
+  inv : Inv0 c'
+  sigLen : c'.sigLen = c.sigLen
+  got : aget id c'.rounds = some r
+  others : ∀ j, j ≠ i → c'.rcvdOf j = c.rcvdOf j
+  sub : ∀ x, x ∈ c'.rcvdOf i → x ∈ c.rcvdOf i
+  len : (c.rcvdOf i).length ≤ maxPartials → (c'.rcvdOf i).length < maxPartials
+  ne : NonEmpty c → ∀ id' r', aget id' c'.rounds = some r' → id' ≠ id → r'.sigs ≠ []
+  iso : ∀ id' j s, j ≠ i → c.sigOf id' j = some s → c'.sigOf id' j = some s
+
+private theorem stepSpec_refl {c : Cache} {i : Nat} (h : Inv0 c) (hlen : ¬ (c.rcvdOf i).length ≥ maxPartials) :
+    StepSpec c i c :=
+  ⟨h, rfl, fun _ _ => rfl, fun _ hx => hx, fun _ => by omega, fun hne => hne, fun _ _ _ _ hs => hs⟩
+
+private theorem sigOf_evictHead (c : Cache) (i : Nat) (e : RId) (rest : List RId) (er : RoundCache)
+    (id' : RId) (j : Nat) :
+    (evictHead c i e rest er).sigOf id' j = if id' = e then aget j (adel i er.sigs) else c.sigOf id' j := by
+  rw [sigOf_eq, sigOf_eq]
+  unfold evictHead
+  show Option.bind (aget id' (if _ then _ else _)) _ = _
+  split
+  · rename_i h0
+    rw [List.length_eq_zero_iff] at h0
+    rw [aget_adel]; split
+    · simp [h0, aget]
+    · rfl
+  · rw [aget_aset]; split <;> rfl
+
+private theorem stepSpec_evict {c : Cache} {i : Nat} {e : RId} {rest : List RId} {er : RoundCache} (h : Inv0 c)
+    (hL : c.rcvdOf i = e :: rest) (hE : aget e c.rounds = some er) :
+    StepSpec c i (evictHead c i e rest er) := by
+  have hrc : ∀ j, (evictHead c i e rest er).rcvdOf j = if j = i then rest else c.rcvdOf j := by
+    intro j; unfold evictHead; rw [rcvdOf_aset]; rfl
+  refine ⟨inv_evict h hL hE, rfl, ?_, ?_, ?_, ?_, ?_⟩
+  · intro j hj; rw [hrc]; simp [hj]
+  · intro x hx; rw [hrc] at hx; simp at hx; rw [hL]; simp [hx]
+  · intro hle; rw [hrc]; rw [hL] at hle; simp at hle ⊢; omega
+  · intro hne id' r'
+    unfold evictHead
+    show aget id' (if _ then _ else _) = _ → _
+    split
+    · rw [aget_adel]; split
+      · simp
+      · exact hne _ _
+    · rename_i h0
+      rw [aget_aset]; split
+      · intro h'; cases h'
+        intro hc; apply h0
+        have hc' : adel i er.sigs = [] := hc
+        rw [hc']; rfl
+      · exact hne _ _
+  · intro id' j s hj hs
+    rw [sigOf_evictHead]
+    split
+    · subst_vars
+      rw [sigOf_eq, hE] at hs
+      rw [aget_adel]; simp [hj]; simpa using hs
+    · exact hs
+
+private theorem openRound_spec {c c1 : Cache} {i : Nat} (p : Partial) (hst : StepSpec c i c1) :
+    ∃ c' r, openRound c1 (p.round, p.prev) p = (c', .ok r) ∧ GetSpec c (p.round, p.prev) i c' r := by
+  unfold openRound
+  cases hR : aget (p.round, p.prev) c1.rounds with
+  | some r =>
+    exact ⟨c1, r, rfl, hst.inv, hst.sigLen, hR, hst.others, hst.sub, hst.len,
+      fun hne id' r' h' _ => hst.ne hne id' r' h', hst.iso⟩
+  | none =>
+    refine ⟨_, _, rfl, inv_addFresh hst.inv p.round p.prev hR, hst.sigLen, ?_, hst.others, hst.sub, hst.len, ?_, ?_⟩
+    · simp [aget_aset]
+    · intro hne id' r' h' hid
+      simp only [aget_aset, hid, if_false] at h'
+      exact hst.ne hne id' r' h'
+    · intro id' j s hj hs
+      have := hst.iso id' j s hj hs
+      rw [sigOf_eq] at this ⊢
+      simp only [aget_aset]
+      split
+      · subst_vars; rw [hR] at this; simp at this
+      · exact this
+
+private theorem getCache_unseen {c : Cache} {p : Partial} {i : Nat} (h : Inv0 c)
+    (hi : indexOf c.sigLen p.psig = some i) (hs : c.sigOf (p.round, p.prev) i = none) :
+    ∃ c' r, c.getCache (p.round, p.prev) p = (c', .ok r) ∧ GetSpec c (p.round, p.prev) i c' r := by
+  by_cases hlen : (c.rcvdOf i).length ≥ maxPartials
+  · cases hL : c.rcvdOf i with
+    | nil => rw [hL] at hlen; have := maxPartials_pos; simp at hlen; omega
+    | cons e rest =>
+      have he : (c.sigOf e i).isSome := by rw [← h.listed, hL]; simp
+      rw [sigOf_eq] at he
+      cases hE : aget e c.rounds with
+      | none => rw [hE] at he; simp at he
+      | some er =>
+        rw [getCache_unseen_evict hi hs hlen hL hE]
+        exact openRound_spec p (stepSpec_evict h hL hE)
+  · rw [getCache_unseen_noevict hi hs hlen]
+    exact openRound_spec p (stepSpec_refl h hlen)
+
+private theorem getSpec_notin {c : Cache} {id : RId} {i : Nat} {c' : Cache} {r : RoundCache} (h : Inv0 c)
+    (hs : c.sigOf id i = none) (g : GetSpec c id i c' r) : aget i r.sigs = none := by
+  have h1 : id ∉ c.rcvdOf i := by rw [h.listed, hs]; simp
+  have h2 : id ∉ c'.rcvdOf i := fun hx => h1 (g.sub _ hx)
+  rw [g.inv.listed, sigOf_eq, g.got] at h2
+  simpa using h2
+
+/-- the cache after `Append` of a partial of signer `i` for a round cache `i` is not yet in -/
+private def appended (c' : Cache) (id : RId) (r : RoundCache) (i : Nat) (sig : Bytes) : Cache :=
+  { c' with rounds := aset id { r with sigs := r.sigs ++ [(i, sig)] } c'.rounds,
+            rcvd := aset i (c'.rcvdOf i ++ [id]) c'.rcvd }
+
+private theorem append_seen {c : Cache} {p : Partial} {i : Nat} {s : Bytes}
+    (hi : indexOf c.sigLen p.psig = some i) (hs : c.sigOf (p.round, p.prev) i = some s) :
+    c.append p = (c, .ok) := by
+  rw [sigOf_eq] at hs
+  cases hR : aget (p.round, p.prev) c.rounds with
+  | none => rw [hR] at hs; simp at hs
+  | some r =>
+    rw [hR] at hs
+    have hs' : aget i r.sigs = some s := hs
+    simp [Cache.append, hi, getCache_seen hi hR hs', RoundCache.append, hs']
+
+private theorem append_unseen_eq {c c' : Cache} {p : Partial} {i : Nat} {r : RoundCache}
+    (hi : indexOf c.sigLen p.psig = some i) (hg : c.getCache (p.round, p.prev) p = (c', .ok r))
+    (hn : aget i r.sigs = none) :
+    c.append p = (appended c' (p.round, p.prev) r i p.psig, .ok) := by
+  simp [Cache.append, hi, hg, RoundCache.append, hn, appended]
+
+private structure AppendSpec (c : Cache) (id : RId) (i : Nat) (sig : Bytes) (c'' : Cache) : Prop where
+  inv : Inv0 c''
+  ne : NonEmpty c → NonEmpty c''
+  bound : (∀ j, (c.rcvdOf j).length ≤ maxPartials) → ∀ j, (c''.rcvdOf j).length ≤ maxPartials
+  iso : ∀ id' j s, j ≠ i → c.sigOf id' j = some s → c''.sigOf id' j = some s
+  took : c''.sigOf id i = some sig
+
+private theorem appended_spec {c c' : Cache} {id : RId} {i : Nat} {r : RoundCache} (sig : Bytes)
+    (g : GetSpec c id i c' r) (hn : aget i r.sigs = none) :
+    AppendSpec c id i sig (appended c' id r i sig) := by
+  have hrc : ∀ j, (appended c' id r i sig).rcvdOf j = if j = i then c'.rcvdOf i ++ [id] else c'.rcvdOf j := by
+    intro j; unfold appended; rw [rcvdOf_aset]; rfl
+  have hso : ∀ id' j, (appended c' id r i sig).sigOf id' j =
+      if id' = id then aget j (r.sigs ++ [(i, sig)]) else c'.sigOf id' j := by
+    intro id' j
+    rw [sigOf_eq, sigOf_eq]; unfold appended
+    simp only [aget_aset]; split <;> rfl
+  refine ⟨inv_addSig g.inv sig g.got hn, ?_, ?_, ?_, ?_⟩
+  · intro hne id' r'
+    unfold appended
+    simp only [aget_aset]
+    split
+    · intro h'; cases h'; simp
+    · rename_i hid; intro h'; exact g.ne hne id' r' h' hid
+  · intro hb j
+    rw [hrc]; split
+    · subst_vars
+      have := g.len (hb j)
+      simp; omega
+    · rename_i hj; rw [g.others j hj]; exact hb j
+  · intro id' j s hj hs
+    have h1 := g.iso id' j s hj hs
+    rw [hso]; split
+    · subst_vars
+      rw [sigOf_eq, g.got] at h1
+      have h1' : aget j r.sigs = some s := h1
+      simp [aget_append_single, h1']
+    · exact h1
+  · rw [hso]; simp [aget_append_single, hn]
+
+private theorem append_unseen {c : Cache} {p : Partial} {i : Nat} (h : Inv0 c)
+    (hi : indexOf c.sigLen p.psig = some i) (hs : c.sigOf (p.round, p.prev) i = none) :
+    ∃ c'', c.append p = (c'', .ok) ∧ AppendSpec c (p.round, p.prev) i p.psig c'' := by
+  obtain ⟨c', r, hg, g⟩ := getCache_unseen h hi hs
+  have hn := getSpec_notin h hs g
+  exact ⟨_, append_unseen_eq hi hg hn, appended_spec p.psig g hn⟩
+
+/-! ### the invariant is inductive -/
+
+private theorem CacheInv.inv0 {c : Cache} (h : CacheInv c) : Inv0 c :=
+  ⟨h.roundsNodup, h.rcvdNodup, h.sigsNodup, h.idOk, h.listNodup, h.listed⟩
+
+private theorem cacheInv_of {c : Cache} (h : Inv0 c) (hne : NonEmpty c)
+    (hb : ∀ idx, (c.rcvdOf idx).length ≤ maxPartials) : CacheInv c :=
+  ⟨h.roundsNodup, h.rcvdNodup, h.sigsNodup, h.idOk, h.listNodup, h.listed, hb, hne⟩
+
+private theorem append_malformed {c : Cache} {p : Partial} (hi : indexOf c.sigLen p.psig = none) :
+    c.append p = (c, .errIndex) := by
+  simp [Cache.append, hi]
+
+private theorem cacheInv_append {c : Cache} (p : Partial) (h : CacheInv c) : CacheInv (c.append p).1 := by
+  cases hi : indexOf c.sigLen p.psig with
+  | none => rw [append_malformed hi]; exact h
+  | some i =>
+    cases hs : c.sigOf (p.round, p.prev) i with
+    | some s => rw [append_seen hi hs]; exact h
+    | none =>
+      obtain ⟨c'', he, sp⟩ := append_unseen h.inv0 hi hs
+      rw [he]
+      exact cacheInv_of sp.inv (sp.ne h.nonEmpty) (sp.bound h.bound)
+
+private theorem cacheInv_flush {c : Cache} (round : Nat) (h : CacheInv c) : CacheInv (c.flush round) := by
+  obtain ⟨h1, h2, h3⟩ := inv_flush round h.inv0 h.nonEmpty
+  exact cacheInv_of h1 h2 (fun j => Nat.le_trans (h3 j) (h.bound j))
+
+private theorem cacheInv_apply {c : Cache} (op : COp) (h : CacheInv c) : CacheInv (c.apply op) := by
+  cases op with
+  | append p => exact cacheInv_append p h
+  | flush r => exact cacheInv_flush r h
+
+private theorem cacheInv_empty (sigLen : Nat) : CacheInv (Cache.empty sigLen) := by
+  refine ⟨?_, ?_, ?_, ?_, ?_, ?_, ?_, ?_⟩ <;>
+    simp [Cache.empty, keysNodup, aget, Cache.rcvdOf, Cache.sigOf]
+
+private theorem cacheInv_foldl (ops : List COp) (c : Cache) (h : CacheInv c) :
+    CacheInv (ops.foldl Cache.apply c) := by
+  induction ops generalizing c with
+  | nil => exact h
+  | cons op t ih => exact ih _ (cacheInv_apply op h)
+
+theorem c12_cache_inv (sigLen : Nat) (ops : List COp) : CacheInv (Cache.run sigLen ops) :=
+  cacheInv_foldl ops _ (cacheInv_empty sigLen)
 
 /-- memory per signer is bounded by the quota, whatever rounds / previous signatures the signer signs -/
 theorem c12_cache_bound (sigLen : Nat) (ops : List COp) (idx : Nat) :
-    ((Cache.run sigLen ops).rcvdOf idx).length ≤ maxPartials := by
-  sorry
+    ((Cache.run sigLen ops).rcvdOf idx).length ≤ maxPartials :=
+  (c12_cache_inv sigLen ops).bound idx
 
 /-- the number of round caches is bounded by (number of signers seen) × quota: every round cache holds at least one
 partial, so it is listed by at least one signer -/
 theorem c12_rounds_listed (sigLen : Nat) (ops : List COp) (id : RId) (r : RoundCache)
     (h : aget id (Cache.run sigLen ops).rounds = some r) :
     ∃ idx, id ∈ (Cache.run sigLen ops).rcvdOf idx := by
-  sorry
+  have hinv := c12_cache_inv sigLen ops
+  have hne := hinv.nonEmpty id r h
+  cases hsg : r.sigs with
+  | nil => exact absurd hsg hne
+  | cons kv t =>
+    refine ⟨kv.1, ?_⟩
+    rw [hinv.listed, sigOf_eq, h]
+    simp [hsg, aget]
 
 /-- the eviction branch never meets a missing round cache: a signer at its quota can always open a new round -/
 theorem c12_no_wedge (c : Cache) (p : Partial) (h : CacheInv c) (hm : 0 < maxPartials) :
     (c.append p).2 ≠ .errEvicted := by
-  sorry
+  have _ := hm
+  cases hi : indexOf c.sigLen p.psig with
+  | none => rw [append_malformed hi]; simp
+  | some i =>
+    cases hs : c.sigOf (p.round, p.prev) i with
+    | some s => rw [append_seen hi hs]; simp
+    | none =>
+      obtain ⟨c'', he, _⟩ := append_unseen h.inv0 hi hs
+      rw [he]; simp
 
 /-- a well-formed partial from a signer not yet cached for that (round, prev) is always taken -/
 theorem c12_append_takes (c : Cache) (p : Partial) (idx : Nat) (h : CacheInv c) (hm : 0 < maxPartials)
     (hi : indexOf c.sigLen p.psig = some idx) (hnew : c.sigOf (p.round, p.prev) idx = none) :
     (c.append p).2 = .ok ∧ (c.append p).1.sigOf (p.round, p.prev) idx = some p.psig := by
-  sorry
+  have _ := hm
+  obtain ⟨c'', he, sp⟩ := append_unseen h.inv0 hi hnew
+  rw [he]
+  exact ⟨rfl, sp.took⟩
 
 /-- flooding by one signer never removes a partial cached for another signer -/
 theorem c12_isolation (c : Cache) (p : Partial) (i j : Nat) (id : RId) (s : Bytes) (h : CacheInv c)
     (hi : indexOf c.sigLen p.psig = some i) (hij : j ≠ i) (hs : c.sigOf id j = some s) :
     (c.append p).1.sigOf id j = some s := by
-  sorry
+  cases hs' : c.sigOf (p.round, p.prev) i with
+  | some s' => rw [append_seen hi hs']; exact hs
+  | none =>
+    obtain ⟨c'', he, sp⟩ := append_unseen h.inv0 hi hs'
+    rw [he]
+    exact sp.iso id j s hij hs
 
 /-- C03: within a round cache every signer index occurs at most once, so `Len()` counts distinct signers; a second
 partial from the same index for the same (round, prev) changes nothing -/
 theorem c03_distinct (sigLen : Nat) (ops : List COp) (id : RId) (r : RoundCache)
-    (h : aget id (Cache.run sigLen ops).rounds = some r) : keysNodup r.sigs := by
-  sorry
+    (h : aget id (Cache.run sigLen ops).rounds = some r) : keysNodup r.sigs :=
+  (c12_cache_inv sigLen ops).sigsNodup id r h
 
 theorem c03_duplicate_ignored (c : Cache) (p : Partial) (idx : Nat) (s : Bytes) (h : CacheInv c)
     (hi : indexOf c.sigLen p.psig = some idx) (hs : c.sigOf (p.round, p.prev) idx = some s) :
     (c.append p).1 = c ∧ (c.append p).2 = .ok := by
-  sorry
+  have _ := h
+  rw [append_seen hi hs]; exact ⟨rfl, rfl⟩
 
 /-- a malformed partial signature (wrong length) is rejected and changes nothing -/
 theorem c03_malformed_ignored (c : Cache) (p : Partial) (hi : indexOf c.sigLen p.psig = none) :
     (c.append p).1 = c ∧ (c.append p).2 = .errIndex := by
-  sorry
+  rw [append_malformed hi]; exact ⟨rfl, rfl⟩
 
 /-- `FlushRounds r` removes exactly the round caches of rounds ≤ r -/
 theorem c12_flush_exact (c : Cache) (round : Nat) (h : CacheInv c) (id : RId) :
     aget id (c.flush round).rounds = (match aget id c.rounds with
       | some r => if r.round > round then some r else none
       | none => none) := by
-  sorry
+  rw [flush_eq, flush_fold_aget round c.rounds h.roundsNodup c id]
+  cases hR : aget id c.rounds with
+  | none => rfl
+  | some r => rfl
 
 /-! ### non-vacuity -/
 example : (Cache.run 1 [.append ⟨5, [1], [0, 7, 9]⟩, .append ⟨5, [1], [0, 8, 9]⟩, .append ⟨5, [1], [0, 7, 3]⟩]).roundLen 5 [1] = some 2 := by decide
+
+
+/-- a signer at its quota that joins a round cache opened by another signer: its oldest entry is evicted, the list
+stays at the quota (signer 0 opens rounds 1..100, signer 1 opens round 101, signer 0 joins round 101) -/
+private def quotaJoin : List COp :=
+  (List.range 100).map (fun k => COp.append ⟨k + 1, [], [0, 0, 7]⟩) ++
+    [COp.append ⟨101, [], [0, 1, 7]⟩, COp.append ⟨101, [], [0, 0, 7]⟩]
+
+set_option maxRecDepth 100000 in
+example : ((Cache.run 1 quotaJoin).rcvdOf 0).length = 100 ∧ (Cache.run 1 quotaJoin).roundLen 101 [] = some 2 ∧
+    (Cache.run 1 quotaJoin).roundLen 1 [] = none := by decide +kernel
+
+/-
+History (finding): before the repair of `getCache` (Go commit "fix: partial cache enforces the per-signer quota when
+joining an existing round cache"), `getCache` returned an existing round cache without any quota check, and the model
+mirrored that. `CacheInv.bound`, `c12_cache_bound` and `c12_cache_inv` were then FALSE: with the operations `quotaJoin`
+above, `((Cache.run 1 quotaJoin).rcvdOf 0).length` evaluated to 101 > maxPartials = 100 (checked against the old model
+with `decide +kernel`: `¬ ((Cache.run 1 quotaJoin).rcvdOf 0).length ≤ maxPartials`). With two colluding signers
+alternating (signer 1 opens round k, signer 0 joins it, k = 1..500) the old model reached 500 entries in `rcvdOf 0`
+and 500 round caches: signer 1's eviction never emptied a round cache because signer 0 was still in it, so memory
+was unbounded until `FlushRounds`. The old model no longer exists; this note only documents the counterexample.
+-/
 
 end Drand.Beacon
